@@ -228,6 +228,10 @@ fn locate(cell: &str) -> Option<(usize, bool)> {
     if let Some(i) = cell.strip_prefix('s') {
         return i.parse::<usize>().ok().map(|i| (STACK_TRACE_OFFSET + i, true));
     }
+    // operand of the current row that the operation pins down (binary condition, ASSERT's 1)
+    if cell.len() == 2 && cell.starts_with('c') {
+        return cell[1..].parse::<usize>().ok().map(|i| (STACK_TRACE_OFFSET + i, false));
+    }
     match cell {
         "b0" => Some((STACK_TRACE_OFFSET + 16, true)),
         "b1" => Some((STACK_TRACE_OFFSET + 17, true)),
@@ -334,9 +338,20 @@ pub fn air_perturb(inp: &str, outp: &str) {
                     ("+1", honest + Felt::ONE), ("-1", honest - Felt::ONE), ("0", Felt::ZERO), ("1", Felt::ONE), ("neighbour", neighbour),
                     ("p-1", Felt::new(Felt::MODULUS - 1)), ("2^32", Felt::new(1 << 32)), ("rand", Felt::new(rng.next_u64() % Felt::MODULUS)),
                 ];
+                let pinned = cell.len() == 2 && cell.starts_with('c') && cell != "clk";
+                // a pinned operand: only values for which the operation has no valid transition at all (not 0 / 1), tried with
+                // the honest next row and with the next row the operation's algebra would give for that value
+                let cands: Vec<(&str, Felt)> = if pinned {
+                    vec![("2", Felt::new(2)), ("p-1", Felt::new(Felt::MODULUS - 1)), ("3", Felt::new(3)), ("2^32", Felt::new(1 << 32)),
+                         ("rand", Felt::new(2 + rng.next_u64() % (Felt::MODULUS - 2))), ("p-2", Felt::new(Felt::MODULUS - 2)),
+                         ("2:cont", Felt::new(2)), ("p-1:cont", Felt::new(Felt::MODULUS - 1)), ("3:cont", Felt::new(3)), ("2^32:cont", Felt::new(1 << 32)),
+                         ("rand:cont", Felt::new(2 + rng.next_u64() % (Felt::MODULUS - 2))), ("p-2:cont", Felt::new(Felt::MODULUS - 2))]
+                } else {
+                    cands
+                };
                 let mut used = 0;
                 for (kind, v) in cands {
-                    if v == honest || used >= nvals {
+                    if v == honest || (!pinned && used >= nvals) {
                         continue;
                     }
                     used += 1;
@@ -346,8 +361,29 @@ pub fn air_perturb(inp: &str, outp: &str) {
                     } else {
                         f2.current_mut()[col] = v;
                     }
+                    if pinned && kind.ends_with(":cont") {
+                        let so = STACK_TRACE_OFFSET;
+                        let c: Vec<Felt> = f2.current().to_vec();
+                        let n = f2.next_mut();
+                        match name {
+                            "NOT" => n[so] = Felt::ONE - c[so],
+                            "AND" => n[so] = c[so] * c[so + 1],
+                            "OR" => n[so] = c[so] + c[so + 1] - c[so] * c[so + 1],
+                            "CSWAP" => {
+                                n[so] = c[so + 1] + c[so] * (c[so + 2] - c[so + 1]);
+                                n[so + 1] = c[so + 2] + c[so] * (c[so + 1] - c[so + 2]);
+                            }
+                            "CSWAPW" => {
+                                for i in 0..4 {
+                                    n[so + i] = c[so + 1 + i] + c[so] * (c[so + 5 + i] - c[so + 1 + i]);
+                                    n[so + 4 + i] = c[so + 5 + i] + c[so] * (c[so + 1 + i] - c[so + 5 + i]);
+                                }
+                            }
+                            _ => continue,
+                        }
+                    }
                     evals.fill(Felt::ZERO); // (some chiplet constraints accumulate into the buffer)
-                        air.evaluate_transition(&f2, &pv, &mut evals);
+                    air.evaluate_transition(&f2, &pv, &mut evals);
                     let detected = evals.iter().any(|e| *e != Felt::ZERO);
                     let e = agg.entry((key.clone(), regime.to_string(), cell.to_string())).or_insert((0, 0, Value::Null));
                     e.0 += 1;
